@@ -132,7 +132,7 @@ def compose(rnd):
         m0["includes"].append("m0s1")
         s1["imports"] = list(m0["imports"])
     feats = ["uses_in_uses", "uses_in_augment", "augment_into_uses", "sub_augments", "shorthand_everywhere", "ns_under_list",
-             "augment_chain", "lazy_io", "deviate_attrs", "rpc_choice_input", "augment_via_implicit_case", "augment_choice_members", "augment_choice_members", "empty_hooks",
+             "augment_chain", "lazy_io", "deviate_attrs", "rpc_choice_input", "augment_via_implicit_case", "augment_choice_members", "augment_choice_members", "orphan_submodule", "empty_hooks",
              "empty_hooks"]
     late = ["two_augments_same", "two_augments_modules", "augment_vs_uses", "augment_leaf_target", "augment_missing",
             "dev_missing", "dev_min_nonlist", "dev_add_default_twice", "dev_delete_mismatch", "dev_ns_twice", "dev_bad_type",
@@ -371,6 +371,68 @@ def f_augment_choice_members(b, m0, m1, s1):
         src["augments"].append((path(pfx, steps), [mem]))
 
 
+
+def gen_subs_only(rnd):
+    """a module set that consists of submodules only (their module is not read): everything Process does -- error sweep,
+    FixChoice, augments, deviations -- applies to them all the same"""
+    b = B(rnd)
+    r = rnd
+    s1 = b.mod("s1", "p0", "m0")
+    subs = [s1]
+    if r.random() < 0.6:
+        s2 = b.mod("s2", r.choice(["p0", "q0"]), "m0")
+        subs.append(s2)
+        # (no include between them: the library reports the include statements of a submodule that no module includes
+        # as unresolved, which the core model does not do)
+    feats = []
+    for sm in subs:
+        c = b.cont([b.leaf(), b.shorthand_choice()])
+        sm["body"].append(c)
+        if r.random() < 0.6:
+            g = b.grouping([b.shorthand_choice(), b.leaf()])
+            sm["body"] += [g, b.lst([("uses", g[2])])]
+            feats.append("uses")
+        if r.random() < 0.3:
+            sm["body"].append(("rpc", False, b.n("rpc"), [b.shorthand_choice()], None))
+        x = r.random()
+        if x < 0.2:
+            sm["body"].append(("leaf", b.n("l"), "nosuchtype", None, None, None, None))
+            feats.append("unknown_type")
+        elif x < 0.35:
+            sm["body"].append(b.cont([b.leaf("dup"), b.cont([], name="dup") if False else b.leaf("dup")]))
+            feats.append("duplicate")
+        if r.random() < 0.3:
+            # prefixed: the module the prefix names is not there, so this has to be reported.  (An UNPREFIXED path would be
+            # resolved by the library in the submodule's private tree, which the core model does not keep.)
+            sm["augments"].append(("/%s:%s" % (sm["prefix"], c[1]), [b.leaf(), b.shorthand_choice()]))
+            feats.append("own_augment")
+        if r.random() < 0.3:
+            sm["deviations"].append(("/%s:%s/%s:%s" % (sm["prefix"], c[1], sm["prefix"], c[3][0][1]), [dict(kind="replace", cfg=False)]))
+            feats.append("own_deviation")
+    return b.mods, ["subs_only"] + sorted(set(feats))
+
+
+def f_orphan_submodule(b, m0, m1, s1):
+    """a submodule that NO module includes imports a module nobody else imports and augments / deviates it; the imported
+    module holds shorthand choices.  (With the imported module only on the search path this is the configuration of the
+    repaired defect D72: see the on-demand family.)"""
+    r = b.r
+    mx = b.mod("mx", "px")
+    ch = b.shorthand_choice()
+    c = b.cont([b.leaf(), ch, b.cont([b.leaf()])])
+    mx["body"] += [c, b.shorthand_choice()]
+    orph = b.mod("orph", r.choice(["p0", "po"]), "m0")
+    orph["imports"].append(("ix", "mx"))
+    orph["body"].append(b.cont([b.leaf()]))
+    orph["augments"].append((path("ix", [c[1]]), [b.leaf(), b.shorthand_choice()]))
+    if r.random() < 0.6:
+        orph["augments"].append((path("ix", [c[1], ch[1]]), [b.leaf()]))
+    if r.random() < 0.5:
+        orph["deviations"].append((path("ix", [c[1], c[3][0][1]]), [dict(kind="replace", cfg=False)]))
+    if r.random() < 0.25:
+        orph["augments"].append((path("ix", [c[1]]), [b.leaf(c[3][0][1])]))      # conflict: must be reported
+
+
 def f_rpc_choice_input(b, m0, m1, s1):
     g = b.grouping([b.shorthand_choice(), b.leaf()])
     m0["body"].append(g)
@@ -600,7 +662,10 @@ def on_demand_ops(schema, rnd):
                 seen.add(j)
                 reach(j, seen)
         return seen
-    idx = [i for i, m in enumerate(schema) if m["belongs"] is None]
+    included = {sn for m in schema for sn in m["includes"]}
+    # starting points: modules, and submodules that nobody includes (they are read on their own; what THEY import may
+    # be left to the search path as well -- the configuration of the repaired defect D72)
+    idx = [i for i, m in enumerate(schema) if m["belongs"] is None or m["name"] not in included]
     rnd.shuffle(idx)
     roots, covered = [], set()
     for i in idx:
@@ -658,6 +723,10 @@ def run(res, tier, seed, proof):
         r2 = random.Random(rnd.getrandbits(64))
         s = sg.random_schema(r2, n_modules=r2.randint(1, 3))
         cases.append((s, "c" if r2.random() < 0.1 else "-", ["random"]))
+    n_subs = 120 if tier == "quick" else 2500
+    for i in range(n_subs):
+        sch, feats = gen_subs_only(random.Random(rnd.getrandbits(64)))
+        cases.append((sch, "-", feats))
     go_lines = [sg.go_case(s, opts=o) for (s, o, _) in cases]
     # the model visits the modules in the order the implementation does (sorted names, modules before submodules:
     # schema_gen.model_case's default); the theorems quantify over all orders
@@ -702,7 +771,7 @@ def run(res, tier, seed, proof):
         if st == "err":
             continue
         # (a) forests
-        if canon != m:
+        if canon.strip() != m.strip():
             stats["forest_mismatch"] += 1
             violation("model and implementation build different trees: features %s" % feats,
                       dict(rep, kind="correspondence", impl=canon, model=m))
@@ -770,6 +839,47 @@ def run(res, tier, seed, proof):
                 violation("tree invariant violated after a clean Process with modules found through the search path: %s"
                           % "; ".join(bad[:3]), dict(rep, treeviol=bad[:10]))
 
+    # ---- family "histories": Process, ClearEntryCache, Process again (command process04 of harness/go/c04.go): what
+    # ToEntry hands out after the last Process must again be the processed trees -- same verdict, same forest, walker clean
+    hi_lines, hi_idx = [], []
+    stats.update(history_cases=0, history_shapes={})
+    for i, (sch, o, feats) in enumerate(cases):
+        if not go[i].startswith("{") or rnd.random() < 0.4:
+            continue
+        loads = ["L%d" % k for k in range(len(sch))]
+        ops, _ = on_demand_ops(sch, random.Random(rnd.getrandbits(32))) if rnd.random() < 0.3 else (None, 0)
+        pre = ops[:-2] if ops else ",".join(loads)
+        shape = rnd.choice(["P,C,P", "P,C,P", "P,P", "P,C,P,C,P", "C,P,C,P"])
+        if shape.startswith("C"):
+            line_ops = "C," + pre + "," + shape[2:]
+        else:
+            line_ops = pre + "," + shape
+        hi_lines.append("process04" + sg.go_case(sch, opts=o, ops=line_ops)[len("process"):])
+        hi_idx.append(i)
+        stats["history_cases"] += 1
+        stats["history_shapes"][shape] = stats["history_shapes"].get(shape, 0) + 1
+    hi_go = run_go(hi_lines)
+    for i, line, g in zip(hi_idx, hi_lines, hi_go):
+        st0, canon0, _ = sg.canon_go(go[i])
+        st, canon, j = sg.canon_go(g)
+        sch, o, feats = cases[i]
+        rep = dict(kind="on-demand", go_case=line, go_case_explicit=go_lines[i], ml_case=ml_lines[i], features=feats,
+                   text="\n".join(sg.render_module(x) for x in sch))
+        if st0 not in ("ok", "err"):
+            continue
+        if (st, canon) != (st0, canon0):
+            violation("after Process / ClearEntryCache / Process the result differs from a single Process: single=%s history=%s "
+                      "(features %s)" % (st0, st if st != "ok" or st0 != "ok" else "ok, other trees", feats),
+                      dict(rep, explicit=(canon0 or st0)[:3000], on_demand=(canon or st)[:3000]))
+        if st == "ok":
+            run_ = j["runs"][-1]
+            bad = list(run_["treeviol"] or [])
+            for md in run_["modules"]:
+                walk_flags(md["tree"], bad)
+            if bad:
+                violation("tree invariant violated after Process / ClearEntryCache / Process: %s" % "; ".join(bad[:3]),
+                          dict(rep, treeviol=bad[:10]))
+
     # ---- family "revisions" (implementation only)
     n_rev = 200 if tier == "quick" else 4000
     revc = [gen_revisions(random.Random(rnd.getrandbits(64))) for _ in range(n_rev)]
@@ -807,8 +917,13 @@ def run(res, tier, seed, proof):
                 violation("tree invariant violated after a clean Process (some revision's tree): %s" % "; ".join(bad[:3]),
                           dict(rep, treeviol=bad[:10]))
     cov = dict(
-        evaluations=len(cases) + len(side_idx) + n_rev + len(od_lines), distinct_nontrivial=stats["ok"] + stats["err"],
-        rule="family `on demand`: every composed / random set once more with only some modules read explicitly and the others "
+        evaluations=len(cases) + len(side_idx) + n_rev + len(od_lines) + len(hi_lines), distinct_nontrivial=stats["ok"] + stats["err"],
+        rule="family `histories`: 60% of the sets once more through Process / ClearEntryCache / Process (shapes P,C,P; P,P; "
+             "P,C,P,C,P; C,P,C,P; partly with modules left to the search path): verdict, forest and walker as after a single "
+             "Process.  Sets consisting of submodules only (shorthand choices, uses, rpc input, unknown type, duplicate, "
+             "augment, deviation).  Feature orphan_submodule: a submodule nobody includes imports, augments and deviates a "
+             "module nobody else imports (in the on-demand family that module may be only on the search path: D72).  "
+             "Family `on demand`: every composed / random set once more with only some modules read explicitly and the others "
              "(reachable through import / include) found on the search path (ops D of the process command): same status, same "
              "canonical forest over ALL modules, walker and flags clean.  Family `revisions` (text level, implementation only): 2..3 revisions of module base loaded together, 1..3 importers "
              "pinning a revision (or none) and augmenting /b:c of that revision with a leaf the revision may already have, with "
